@@ -29,7 +29,7 @@ from ..binding import Binding
 from ..bitdom import Int, V, Value
 from ..effects import Effects, _SelfWalker
 from ..fields import FieldRanges
-from ..flow import stale_reads, Walker, guard_has, fmt, exclusive
+from ..flow import split_writes, stale_reads, Walker, guard_has, fmt, exclusive
 from ..machine import Machine, compare_final, describe_witness
 from ..ranges import FuncAnalyzer
 from ..refmodel import P
@@ -306,7 +306,7 @@ def check_templates(run, repo, eff, bind):
     # ---- BL / BLX immediate ----
     ci, tr = T('BlBlxImmediate')
     ok = True
-    lrs = [e for e in tr.of('RegWrite') if e.d['idx'] == c(14)]
+    lrs = split_writes([e for e in tr.of('RegWrite') if e.d['idx'] == c(14)])
     arm_lr = [e for e in lrs if guard_has(e.guards, is_arm_state, True)]
     th_lr = [e for e in lrs if guard_has(e.guards, is_arm_state, False)]
     if len(arm_lr) != 1 or norm(arm_lr[0].d['value']) != sub32(PC, c(4)):
@@ -336,7 +336,7 @@ def check_templates(run, repo, eff, bind):
     # ---- BLX register ----
     ci, tr = T('BlxRegister')
     ok = True
-    lrs = [e for e in tr.of('RegWrite') if e.d['idx'] == c(14)]
+    lrs = split_writes([e for e in tr.of('RegWrite') if e.d['idx'] == c(14)])
     arm_lr = [e for e in lrs if guard_has(e.guards, is_arm_state, True)]
     th_lr = [e for e in lrs if guard_has(e.guards, is_arm_state, False)]
     if len(arm_lr) != 1 or norm(arm_lr[0].d['value']) != sub32(PC, c(4)):
